@@ -217,6 +217,29 @@ CLAIMED = {
             "cross-checked by a twin tree that never sees a cache), CPython refcounting. Three defects found and repaired (findings/C06.json). Cyclic-GC "
             "timing not explored; twin-tree differences (render side effects skipped by hits) are DIVERGENCE only.",
             "DESIGN.md §4 C06"),
+    "C01": ("TLA+ widget-term calculus WidgetTreeOps.tla (advertised sizing, usable modes, well-formedness from the constructor documentation) and builder "
+            "state machine WidgetTree.tla (Leaf/Wrap/Compose) model-checked by TLC (sizing laws; the documented rules' over-claim exhibited as a counterexample "
+            "and reproduced on the real code); TLC enumerates (-dump) and simulates the widget terms; TLC trace validation (RenderTrace.tla) of "
+            "sizing()/rows()/pack()/render() of the real widgets",
+            "TLC enumerates every leaf of the option alphabets, every well-formed term to depth 1 (rep alphabet) / 2 (tiny alphabet) and simulated terms to "
+            "depth 4; each is built from the real urwid classes and rendered in every sizing mode it reports, sizes 1..8 x 1..5, both focus flags, three "
+            "encodings; TLC judges every event: no exception, box = requested size, flow = requested columns and rows(), fixed = pack(), every content row as "
+            "wide as the canvas (widths summed in TLA+ from Unicode-database character widths), row count, cursor inside.",
+            "Trusted: TLC, vf/wtree.py (term -> constructor calls, observe_render, unicodedata width table checked against wcwidth), vf/tlaparse.py. TLC's role is "
+            "enumeration of the configuration space and per-event contract evaluation. Fill characters are single-column; fixed widgets of 0 columns/rows are "
+            "outside 'sizes >= 1'; a depth-2 sample (not all 67k terms) is rendered; 16 defects repaired, 8 known findings in findings/C01.json.",
+            "DESIGN.md §4 C01/C09"),
+    "C09": ("Same generator model (WidgetTree.tla, probe leaves, geometry kinds) enumerated/simulated by TLC; geometry operators of WidgetTreeOps.tla "
+            "(painted rectangles, origins, fit precondition) self-tested by TLC; TLC trace validation (GeometryTrace.tla) of get_cursor_coords / "
+            "mouse_event / move_cursor_to_coords of the real containers around probe leaves and tagged real Edit / SelectableIcon widgets",
+            "For every term and box/flow/fixed size that satisfies the fit precondition (decided in TLA+ from the painted id grid and the rows each widget asked "
+            "for) TLC checks: get_cursor_coords() before rendering = cursor of the focused rendering; a button-1 press on every painted cell reaches exactly the "
+            "leaf painted there with coordinates relative to its painted origin; move_cursor_to_coords on the root succeeds iff that leaf accepts the translated "
+            "cell (its own answers recorded on a separate copy), and afterwards the reported cursor is on the requested row and equals the rendered one.",
+            "Trusted: TLC, the probe / tagged widgets and observe_geometry() in vf/wtree.py, row_ids() (attributes -> id grid). Leaves under an Overlay's "
+            "bottom and unpainted cells are not judged; each press/move acts on a copy in the freshly rendered state; Scrollable/ScrollBar geometry is C20's. "
+            "5 defects repaired, 1 known finding in findings/C09.json.",
+            "DESIGN.md §4 C01/C09"),
 }
 
 NOT_APPLICABLE = {}
